@@ -15,6 +15,7 @@ type Config struct {
 	Sync         byte    `json:"sync"` // 0 no 1 always 2 threshold
 	BytesPerSync uint    `json:"bps"`
 	MergeRatio   float32 `json:"ratio"`
+	BgMerge      bool    `json:"bgmerge,omitempty"` // EnableBackgroundMerge (timer-driven Merge once a second)
 }
 
 func (c Config) Options(dir string) kv.Options {
@@ -27,6 +28,8 @@ func (c Config) Options(dir string) kv.Options {
 		FileIOType:         c.FileIO,
 		DataFileMergeRatio: c.MergeRatio,
 		ShardNum:           c.ShardNum,
+
+		EnableBackgroundMerge: c.BgMerge,
 	}
 }
 
